@@ -521,6 +521,9 @@ def gen_group_cmd(rng, m, db):
             a += [b"COUNT", rng.choice([b"1", b"1", b"2", b"3", b"100"])]
         if rng.random() < 0.25:
             a.append(b"NOACK")
+        if rng.random() < 0.2:
+            # history read (paged with COUNT): re-reads this consumer's own pending entries, moves nothing
+            return a + [b"STREAMS", k, rng.choice([b"0", b"0-0", _fmt(_id_near(rng, pend or ids, last))])]
         return a + [b"STREAMS", k, b">"]
     if c == "ACK":
         n = rng.randrange(1, 4)
@@ -530,7 +533,7 @@ def gen_group_cmd(rng, m, db):
         chosen = []
         for _ in range(n):
             i = rng.choice(pool)
-            if i not in chosen:
+            if i not in chosen or rng.random() < 0.4:      # the same ID may be named twice in one call
                 chosen.append(i)
         return [b"XACK", k, g] + [_fmt(i) for i in chosen]
     if c == "CLAIM":
